@@ -423,12 +423,71 @@ def between(f, a, b):
     return {x for x in fr if b in f.reachable(x, avoid=[a])}
 
 
-def handle_site(f, operand, pat):
-    """bb of the `handle()` call an operand's value comes from (None if it is something else)."""
-    o = f.origin(operand)
-    if o.get("kind") == "call" and o["call"].matches(pat):
-        return o["call"].bb
+def handle_accessors(c, pat):
+    """INLINE VIEW, part 3: same-crate accessors that on every path return `self.<field>...handle()`, i.e. exactly one
+    call matching `pat` whose result is the return value and whose receiver is a field path of the first parameter.
+    {npath: (Fn, inner handle Call)}."""
+    key = "_c23_hacc_" + pat
+    cached = getattr(c, key, None)
+    if cached is not None:
+        return cached
+    out = {}
+    for h in c.fns.values():
+        if h.argc != 1:
+            continue
+        hs = h.calls(pat)
+        if len(hs) != 1 or not h.returns() or not every_return_passes(h, [hs[0].bb]) or h.in_cycle(hs[0].bb):
+            continue
+        rv = h.place_origin({"l": 0})
+        if not (hs[0].dest.get("l") == 0 or (rv.get("kind") == "call" and rv["call"].bb == hs[0].bb
+                                             and not rv.get("proj"))):
+            continue
+        if [1 for b in h.live for st in h.stmts(b) if st["k"] == "=" and st["p"]["l"] == 0]:
+            continue
+        out[h.npath] = (h, hs[0])
+    setattr(c, key, out)
+    return out
+
+
+def _accessor_of(f, call, pat):
+    for n in call.names():
+        hit = handle_accessors(f.crate, pat).get(mir.norm(n))
+        if hit and hit[0].path != f.path:
+            return hit
     return None
+
+
+def handle_site(f, operand, pat):
+    """bb of the `handle()` call an operand's value comes from, directly or through a one-line accessor of the same
+    crate (None if it is something else).  One call site = one handle value."""
+    o = f.origin(operand)
+    if o.get("kind") == "call" and not [x for x in o.get("proj", []) if x not in ("&", "*")]:
+        if o["call"].matches(pat) or _accessor_of(f, o["call"], pat):
+            return o["call"].bb
+    return None
+
+
+def handle_on_field(f, bb, pat, field, via=None):
+    """the handle obtained at block bb is that of `<...>.field` (directly, or through an accessor called on a receiver
+    reached through `.via` whose body reads `self.field`)."""
+    for y in f.calls():
+        if y.bb != bb or not y.args:
+            continue
+        if y.matches(pat):
+            return _via_option_of_field(f, y.args[0], field)
+        acc = _accessor_of(f, y, pat)
+        if acc:
+            h, inner = acc
+            o = trace(h, inner.args[0])
+            seen = 0
+            while o.get("kind") == "call" and seen < 6 and o["call"].args and \
+                    o["call"].matches(["Option::as_mut", "Option::as_ref", "Option::unwrap", "Option::as_deref_mut"]):
+                o = trace(h, o["call"].args[0])
+                seen += 1
+            pr = [x for x in o.get("proj", []) if x not in ("&", "*")]
+            ok = o.get("kind") == "arg" and o.get("n") == 1 and pr == ["." + field]
+            return ok and (via is None or _from_field(f, y.args[0], via))
+    return False
 
 
 def short(f):
@@ -888,9 +947,8 @@ def feature_rules(rep, c, cfg, tag, syn, closure):
             same = h is not None and any(handle_site(f, y.args[0], HANDLE_R) == h for y in rm if y.args)
             rep.ob("R23.2", f"cancel: set removal and cancel_read use the same reader handle {tag}", same,
                    "the handle removed from the sets is not the handle whose read is cancelled", f.loc(x.bb))
-            hc = [y for y in f.calls(HANDLE_R) if y.bb == h]
             rep.ob("R23.2", f"cancel: the handle is the inter-task stream's {tag}",
-                   bool(hc) and _via_option_of_field(f, hc[0].args[0], "stream"), "", f.loc(x.bb))
+                   h is not None and handle_on_field(f, h, HANDLE_R, "stream", via="inter_task_wakeup"), "", f.loc(x.bb))
         # the helpers really are `waitable.join(w, 0)` / `waitable.join(w, set)`
         h = c.method("WaitableSet", "remove_waitable_from_all_sets")
         rep.saw(h)
@@ -948,9 +1006,8 @@ def feature_rules(rep, c, cfg, tag, syn, closure):
             rep.ob("R23.3", f"read: start_read asks for exactly one item {tag}",
                    cnt.get("kind") == "const" and cnt.get("v") == 1, f"count operand {cnt.get('v')}", f.loc(x.bb))
             h = handle_site(f, x.args[1], HANDLE_R) if len(x.args) > 1 else None
-            hc = [y for y in f.calls(HANDLE_R) if y.bb == h]
             rep.ob("R23.3", f"read: start_read is on the inter-task stream's reader handle {tag}",
-                   bool(hc) and _via_option_of_field(f, hc[0].args[0], "stream"), "", f.loc(x.bb))
+                   h is not None and handle_on_field(f, h, HANDLE_R, "stream", via="inter_task_wakeup"), "", f.loc(x.bb))
             tests = [e for e in eq_tests_on_call(f, x, syn)]
             good = [e for e in tests if e["k"] == BLOCKED and not (f.reachable(e["ne"]) & rets)]
             rep.ob("R23.3", f"read: the result of start_read is asserted to be BLOCKED {tag}",
